@@ -89,8 +89,11 @@ inductive Exec : Stmt → State → Outcome → State → Prop
   | tryJ : Exec b σ o σ1 → o ≠ .normal → o ≠ .exc → Exec (.tryx r1 r2 b hs e) σ o σ1
   -- handler dispatch (runs in the state in which the exception was raised); the type expressions of the clauses
   -- before the matching one are evaluated too; the last clause catches everything; type expressions do not bind
-  | hMatch : Exec ty σ .normal σ → Exec nm σ .normal σ2 → Exec hb σ2 o σ3 →
+  | hMatch : Exec ty σ .normal σ → Exec nm σ .normal σ2 → Exec hb σ2 o σ3 → (∀ r, o ≠ .stop r) →
       Exec (.hcons ty nm hb rest) σ o (delEx nm σ3)
+  -- (the except name is still bound while the handler body runs: an observation stop inside it sees it)
+  | hMatchS : Exec ty σ .normal σ → Exec nm σ .normal σ2 → Exec hb σ2 (.stop r) σ3 →
+      Exec (.hcons ty nm hb rest) σ (.stop r) σ3
   | hSkip : rest ≠ .hnil → Exec ty σ .normal σ → Exec rest σ o σ2 → Exec (.hcons ty nm hb rest) σ o σ2
   | hS : Exec ty σ (.stop r) σ1 → Exec (.hcons ty nm hb rest) σ (.stop r) σ1
   -- try/finally: the finally block runs on every outcome except the observation stop
@@ -244,116 +247,136 @@ def RunSt.pop (st : RunSt) : Bool × RunSt :=
 
 def trips : Nat := 2
 
-/-- `fuel` bounds the recursion depth (statement nesting + loop iterations); programs are far below it -/
-def run : Nat → Stmt → RunSt → Outcome × RunSt
-  | 0, _, st => (.exc, st)
+abbrev RunRes := Option (Outcome × RunSt)
+
+/-- continue with `k` after a normal outcome, otherwise pass the result on (`none` = out of fuel / stuck) -/
+def RunRes.bindN (res : RunRes) (k : RunSt → RunRes) : RunRes :=
+  match res with
+  | some (.normal, st1) => k st1
+  | res => res
+
+/-- the decision of a loop test / iterator: at most `trips` iterations per activation, then "stop" without a decision -/
+def RunSt.popTrip (st : RunSt) (k : Nat) : Bool × RunSt := if k < trips then st.pop else (false, st)
+
+/-- condition of a generator level: no decision when there is no condition -/
+def RunSt.popIf (st : RunSt) (ifs : Stmt) : Bool × RunSt :=
+  match ifs with
+  | .skip => (true, st)
+  | _ => st.pop
+
+/-- handler match: the last clause catches everything (no decision) -/
+def RunSt.popMatch (st : RunSt) (rest : Stmt) : Bool × RunSt :=
+  match rest with
+  | .hnil => (true, st)
+  | _ => st.pop
+
+/-- `fuel` bounds the recursion depth (statement nesting + loop iterations); `none` = out of fuel (programs are far
+    below it) or a statement without meaning (a handler chain outside a try) -/
+def run : Nat → Stmt → RunSt → RunRes
+  | 0, _, _ => none
   | n + 1, s, st =>
     match s with
-    | .skip => (.normal, st)
-    | .bind x d => (.normal, { st with σ := st.σ.upd x d })
-    | .gbind x d => (.normal, { st with σ := st.σ.upd x d })
-    | .read x r => (.normal, { st with tr := (r, st.σ x) :: st.tr })
-    | .seq a b =>
-        match run n a st with
-        | (.normal, st1) => run n b st1
-        | res => res
-    | .ite c a b =>
-        match run n c st with
-        | (.normal, st1) => let (d, st2) := st1.pop; if d then run n a st2 else run n b st2
-        | res => res
+    | .skip => some (.normal, st)
+    | .bind x d => some (.normal, { st with σ := st.σ.upd x d })
+    | .gbind x d => some (.normal, { st with σ := st.σ.upd x d })
+    | .read x r => some (.normal, { st with tr := (r, st.σ x) :: st.tr })
+    | .seq a b => (run n a st).bindN fun st1 => run n b st1
+    | .ite c a b => (run n c st).bindN fun st1 => if st1.pop.1 then run n a st1.pop.2 else run n b st1.pop.2
     | .while_ c b e => loop n c b e 0 st
-    | .for_ it tg b e =>
-        match run n it st with
-        | (.normal, st1) => loop n .skip (.seq tg b) e 0 st1
-        | res => res
+    | .for_ it tg b e => (run n it st).bindN fun st1 => loop n .skip (.seq tg b) e 0 st1
     | .tryx r1 r2 b hs e =>
-        let (d1, st0) := if r1 then st.pop else (false, st)
-        if d1 then run n hs st0 else
-        match run n b st0 with
-        | (.normal, st1) =>
-            let (d2, st2) := if r2 then st1.pop else (false, st1)
-            if d2 then run n hs st2 else run n e st2
-        | (.exc, st1) => run n hs st1
+        let p0 := if r1 then st.pop else (false, st)
+        if p0.1 then run n hs p0.2 else
+        match run n b p0.2 with
+        | some (.normal, st1) =>
+            let p2 := if r2 then st1.pop else (false, st1)
+            if p2.1 then run n hs p2.2 else run n e p2.2
+        | some (.exc, st1) => run n hs st1
         | res => res
-    | .hnil => (.exc, st)
+    | .hnil => none
     | .hcons ty nm hb rest =>
-        match run n ty st with
-        | (.normal, st1) =>
-            let (d, st2) := match rest with
-              | .hnil => (true, st1)
-              | _ => st1.pop
-            if d then
-              match run n nm st2 with
-              | (.normal, st3) =>
-                  let (o, st4) := run n hb st3
-                  (o, { st4 with σ := delEx nm st4.σ })
-              | res => res
-            else run n rest st2
-        | res => res
+        (run n ty st).bindN fun st1 =>
+          if (st1.popMatch rest).1 then
+            (run n nm (st1.popMatch rest).2).bindN fun st3 =>
+              match run n hb st3 with
+              | some (o, st4) => some (o, { st4 with σ := delEx nm st4.σ })
+              | none => none
+          else run n rest (st1.popMatch rest).2
     | .fin a f =>
-        let (o, st1) := run n a st
-        match run n f st1 with
-        | (.normal, st2) => (o, st2)
-        | res => res
+        match run n a st with
+        | none => none
+        | some (o, st1) =>
+          match run n f st1 with
+          | some (.normal, st2) => some (o, st2)
+          | res => res
     | .comp it g =>
-        match run n it st with
-        | (.normal, st1) =>
-            let saved := st1.σ
-            let tgs := compTargets g
-            let σ0 : State := fun y => if y ∈ tgs then none else saved y
-            let (o, st2) := run n g { st1 with σ := σ0 }
-            (o, { st2 with σ := fun y => if y ∈ tgs then saved y else st2.σ y })
-        | res => res
+        (run n it st).bindN fun st1 =>
+          match run n g { st1 with σ := State.hide (compTargets g) st1.σ } with
+          | some (o, st2) => some (o, { st2 with σ := State.restore (compTargets g) st1.σ st2.σ })
+          | none => none
     | .cfor tg ifs inner => cloop n tg ifs inner 0 st
-    | .def_ pre f d _ _ =>
-        match run n pre st with
-        | (.normal, st1) => (.normal, { st1 with σ := st1.σ.upd f d })
-        | res => res
+    | .def_ pre f d _ _ => (run n pre st).bindN fun st1 => some (.normal, { st1 with σ := st1.σ.upd f d })
     | .lam pre _ _ => run n pre st
-    | .cls pre c d _ =>
-        match run n pre st with
-        | (.normal, st1) => (.normal, { st1 with σ := st1.σ.upd c d })
-        | res => res
-    | .mayraise _ => let (d, st1) := st.pop; if d then (.exc, st1) else (.normal, st1)
-    | .brk => (.brk, st)
-    | .cont => (.cont, st)
-    | .ret => (.ret, st)
-    | .raise_ => (.exc, st)
+    | .cls pre c d _ => (run n pre st).bindN fun st1 => some (.normal, { st1 with σ := st1.σ.upd c d })
+    | .mayraise _ => some (if st.pop.1 then .exc else .normal, st.pop.2)
+    | .brk => some (.brk, st)
+    | .cont => some (.cont, st)
+    | .ret => some (.ret, st)
+    | .raise_ => some (.exc, st)
 where
-  loop : Nat → Stmt → Stmt → Stmt → Nat → RunSt → Outcome × RunSt
-    | 0, _, _, _, _, st => (.exc, st)
+  loop : Nat → Stmt → Stmt → Stmt → Nat → RunSt → RunRes
+    | 0, _, _, _, _, _ => none
     | n + 1, c, b, e, k, st =>
-      match run n c st with
-      | (.normal, st1) =>
-          let (d, st2) := if k < trips then st1.pop else (false, st1)
-          if d then
-            match run n b st2 with
-            | (.normal, st3) => loop n c b e (k + 1) st3
-            | (.cont, st3) => loop n c b e (k + 1) st3
-            | (.brk, st3) => (.normal, st3)
-            | res => res
-          else run n e st2
-      | res => res
-  cloop : Nat → Stmt → Stmt → Stmt → Nat → RunSt → Outcome × RunSt
-    | 0, _, _, _, _, st => (.exc, st)
+      (run n c st).bindN fun st1 =>
+        if (st1.popTrip k).1 then
+          match run n b (st1.popTrip k).2 with
+          | some (.normal, st3) => loop n c b e (k + 1) st3
+          | some (.cont, st3) => loop n c b e (k + 1) st3
+          | some (.brk, st3) => some (.normal, st3)
+          | res => res
+        else run n e (st1.popTrip k).2
+  cloop : Nat → Stmt → Stmt → Stmt → Nat → RunSt → RunRes
+    | 0, _, _, _, _, _ => none
     | n + 1, tg, ifs, inner, k, st =>
-      let (d, st1) := if k < trips then st.pop else (false, st)
-      if d then
-        match run n tg st1 with
-        | (.normal, st2) =>
-            match run n ifs st2 with
-            | (.normal, st3) =>
-                let (d2, st4) := match ifs with
-                  | .skip => (true, st3)
-                  | _ => st3.pop
-                if d2 then
-                  match run n inner st4 with
-                  | (.normal, st5) => cloop n tg ifs inner (k + 1) st5
-                  | res => res
-                else cloop n tg ifs inner (k + 1) st4
-            | res => res
-        | res => res
-      else (.normal, st1)
+      if (st.popTrip k).1 then
+        (run n tg (st.popTrip k).2).bindN fun st2 =>
+          (run n ifs st2).bindN fun st3 =>
+            if (st3.popIf ifs).1 then (run n inner (st3.popIf ifs).2).bindN fun st5 => cloop n tg ifs inner (k + 1) st5
+            else cloop n tg ifs inner (k + 1) (st3.popIf ifs).2
+      else some (.normal, (st.popTrip k).2)
+
+/-- what `run` is proved sound for: tests are events, handler types are reads, except names are names, the parts of a
+    comprehension are events, definition headers are events; class statements (their body runs at definition time,
+    `run` does not execute it) and free-standing handler chains / generator levels are excluded -/
+def chainWf : Stmt → Bool
+  | .cfor tg ifs inner => isBinds tg && isEvents ifs && chainWf inner
+  | .seq s t => isEvents s && chainWf t
+  | s => isEvents s
+
+def isNm : Stmt → Bool
+  | .skip => true | .bind _ _ => true | .gbind _ _ => true
+  | _ => false
+
+def runWf : Stmt → Bool
+  | .seq s t => runWf s && runWf t
+  | .ite c a b => isEvents c && runWf a && runWf b
+  | .while_ c b e => isEvents c && runWf b && runWf e
+  | .for_ it tg b e => runWf it && runWf tg && runWf b && runWf e
+  | .tryx _ _ b hs e => runWf b && isHcons hs && hsWf hs && runWf e
+  | .hnil => false
+  | .hcons _ _ _ _ => false
+  | .fin s f => runWf s && runWf f
+  | .comp it g => isEvents it && chainWf g
+  | .cfor _ _ _ => false
+  | .def_ pre _ _ _ _ => isEvents pre
+  | .lam pre _ _ => isEvents pre
+  | .cls _ _ _ _ => false
+  | _ => true
+where
+  hsWf : Stmt → Bool
+  | .hnil => true
+  | .hcons ty nm hb rest => isReads ty && isNm nm && runWf hb && hsWf rest
+  | _ => false
 
 /-- constructs `run` treats by their own-scope effect only (bodies of nested scopes are not executed) -/
 def inSem : Stmt → Bool
@@ -372,8 +395,9 @@ def inSem : Stmt → Bool
   | .gbind _ _ => false
   | _ => true
 
-def runProg (prog : Stmt) (ds : List Bool) : Outcome × List (RId × Option Site) :=
-  let (o, st) := run 400 prog { σ := State.init, ds := ds, tr := [] }
-  (o, st.tr.reverse)
+def runProg (prog : Stmt) (ds : List Bool) : Option (Outcome × List (RId × Option Site)) :=
+  match run 400 prog { σ := State.init, ds := ds, tr := [] } with
+  | some (o, st) => some (o, st.tr.reverse)
+  | none => none
 
 end SuppModel.Den
